@@ -18,7 +18,9 @@ def plans(tier):
         ("mark4", pc.consts(S, N=4, N0=4, weight="W2101", win=1, passive=False, mark=True, outcomes=("ok",))),
         ("hold", pc.consts(S, win=1, passive=False, mark=True, maxhold=1, outcomes=("ok", "hold"))),
         ("active", pc.consts(S, win=1, passive=True, thr=2, active=True, outcomes=("ok", "fail"))),
-        ("admin3", pc.consts(["round_robin", "ip_hash", "weighted_round_robin"], N=3, N0=3, weight="W111", win=1, passive=False, mark=True, admin=True, clients=(1,), outcomes=("ok",))),
+        # one strategy per plan: with set_strategy between three strategies the same constants give 2.9 M transitions
+        ("admin3", pc.consts(["round_robin"], N=3, N0=3, weight="W111", win=1, passive=False, mark=True, admin=True, clients=(1,), outcomes=("ok",))),
+        ("admin3-wrr", pc.consts(["weighted_round_robin"], N=3, N0=3, weight="W111", win=1, passive=False, mark=True, admin=True, clients=(1,), outcomes=("ok",))),
         ("admin", pc.consts(["round_robin", "least_connections", "ip_hash"], N=3, N0=2, weight="W321", win=1, passive=False, mark=True, admin=True, clients=(1,), outcomes=("ok",))),
     ]
 
